@@ -251,20 +251,14 @@ theorem judge_events_ok (c : Ctx) (stream : Bytes) : ∀ e ∈ (judge c stream).
 
 /-! ### transfer to the engine -/
 
-/-- the side condition under which the engine is claimed to follow the judge (see `Agree`): the stream does not
-make a *client* read on behind a peer's close frame -/
-def Covered (cfg : Cfg) (stream : Bytes) : Prop :=
-  (judge (Ctx.ofCfg cfg) stream).2.1 ≠ .closedByPeer ∨ cfg.isServer = true ∨ (judge (Ctx.ofCfg cfg) stream).2.2 = 0
-
-/-- **everything the engine delivers is legal** — any stream, any segmentation -/
+/-- **everything the engine delivers is legal** — any stream, any segmentation, both roles -/
 theorem delivered_events_ok (cfg : Cfg) (hf : cfg.failByDrop = true) (chunks : List Bytes)
-    (hne : ∀ ch ∈ chunks, ch ≠ []) (hnil : chunks ≠ []) (hcov : Covered cfg chunks.flatten) :
+    (hne : ∀ ch ∈ chunks, ch ≠ []) (hnil : chunks ≠ []) :
     ∀ e ∈ evsOf (feed (start cfg) chunks).log, EvOk (Ctx.ofCfg cfg) e := by
   obtain ⟨s', hsim, hag⟩ := recv_refines_judge_fresh cfg hf chunks hne hnil
   have hjo := judge_events_ok (Ctx.ofCfg cfg) chunks.flatten
   rw [hsim.log]
   intro e he
-  unfold Covered at hcov
   cases hv : (judge (Ctx.ofCfg cfg) chunks.flatten).2.1 with
   | ok =>
     rw [hv] at hag
@@ -274,35 +268,29 @@ theorem delivered_events_ok (cfg : Cfg) (hf : cfg.failByDrop = true) (chunks : L
     exact hjo e (by rw [← hag.1]; exact he)
   | closedByPeer =>
     rw [hv] at hag
-    have hside : (Ctx.ofCfg cfg).isServer = true ∨ (judge (Ctx.ofCfg cfg) chunks.flatten).2.2 = 0 := by
-      rcases hcov with h | h | h
-      · exact absurd hv h
-      · exact Or.inl h
-      · exact Or.inr h
-    have h1 := (hag hside).1
-    exact hjo e (by rw [← h1]; exact List.mem_append_left _ he)
+    exact hjo e (by rw [← hag.1]; exact List.mem_append_left _ he)
 
 theorem mem_evsOf {log : List Out} {o : Out} {e : Ev} (ho : o ∈ log) (he : evOfOut o = some e) : e ∈ evsOf log :=
   List.mem_filterMap.mpr ⟨o, ho, he⟩
 
 /-- **C16**: no message longer than `maxMessagePayloadSize` is ever delivered -/
 theorem delivered_message_within_limit (cfg : Cfg) (hf : cfg.failByDrop = true) (chunks : List Bytes)
-    (hne : ∀ ch ∈ chunks, ch ≠ []) (hnil : chunks ≠ []) (hcov : Covered cfg chunks.flatten)
+    (hne : ∀ ch ∈ chunks, ch ≠ []) (hnil : chunks ≠ [])
     (p : Bytes) (b cmp : Bool) (hm : Out.onMessage p b cmp ∈ (feed (start cfg) chunks).log)
     (hpos : 0 < cfg.maxMsg) : p.length ≤ cfg.maxMsg :=
-  (delivered_events_ok cfg hf chunks hne hnil hcov _ (mem_evsOf hm rfl)).1 hpos
+  (delivered_events_ok cfg hf chunks hne hnil _ (mem_evsOf hm rfl)).1 hpos
 
 /-- **C02**: every uncompressed text message delivered is valid UTF-8 (when validation is on) -/
 theorem delivered_text_valid (cfg : Cfg) (hf : cfg.failByDrop = true) (chunks : List Bytes)
-    (hne : ∀ ch ∈ chunks, ch ≠ []) (hnil : chunks ≠ []) (hcov : Covered cfg chunks.flatten)
+    (hne : ∀ ch ∈ chunks, ch ≠ []) (hnil : chunks ≠ [])
     (p : Bytes) (hm : Out.onMessage p false false ∈ (feed (start cfg) chunks).log)
     (hv : cfg.utf8validate = true) : utf8Valid p = true :=
-  (delivered_events_ok cfg hf chunks hne hnil hcov _ (mem_evsOf hm rfl)).2 rfl rfl hv
+  (delivered_events_ok cfg hf chunks hne hnil _ (mem_evsOf hm rfl)).2 rfl rfl hv
 
 /-- **C02**: ping payloads delivered (and echoed) are at most 125 octets -/
 theorem delivered_ping_short (cfg : Cfg) (hf : cfg.failByDrop = true) (chunks : List Bytes)
-    (hne : ∀ ch ∈ chunks, ch ≠ []) (hnil : chunks ≠ []) (hcov : Covered cfg chunks.flatten)
+    (hne : ∀ ch ∈ chunks, ch ≠ []) (hnil : chunks ≠ [])
     (p : Bytes) (hm : Out.onPing p ∈ (feed (start cfg) chunks).log) : p.length ≤ 125 :=
-  delivered_events_ok cfg hf chunks hne hnil hcov _ (mem_evsOf hm rfl)
+  delivered_events_ok cfg hf chunks hne hnil _ (mem_evsOf hm rfl)
 
 end Abverif.Ws
